@@ -8,7 +8,7 @@ export GOFLAGS=-mod=mod GOPROXY=off GOSUMDB=off GOTOOLCHAIN=local
 COPY=$(mktemp -d /tmp/mutconf-XXXXXX)
 trap 'rm -rf "$COPY"' EXIT
 cp -r /repo/. "$COPY"/ && cd "$COPY" && git checkout -q -- . || exit 3
-FP="${SEED_FILEPFX:-zz_seed2?}"; TP="${SEED_TESTPFX:-TestSeed2?}"
+FP="${SEED_FILEPFX:-zz_seed2?}"; TP="${SEED_TESTPFX:-(?i)TestSeed2?}"
 rel=$(grep -hoE "(v2/[a-z/]*|cmd/[a-z/]*)${FP}_${ID}_${V}[A-Za-z0-9_]*\.go" "$SD/README.md" | head -1)
 [ -z "$rel" ] && rel="zz_seed_${ID}_${V}_test.go"
 dir=$(dirname "$rel")
